@@ -11,14 +11,20 @@ fn width(cx: &Cx) -> u64 { if cx.thorough { 1200 } else { 300 } }
 
 /// C01: sign + verify (+ octet round trip through verify) over k messages
 pub fn sign(cx: &mut Cx) {
-    let k = cx.ch.forced("sweep_size", width(cx), cx.run_index) as usize;
+    let mut k = cx.ch.forced("sweep_size", width(cx), cx.run_index) as usize;
     let suite = Suite::from_idx(cx.run_index / width(cx));
     let seed = cx.run_seed;
     let node = cx.node("sweeper");
     cx.count("n.size_sweep_flows");
+    // beyond the sweep: one message of 16 MiB + 1 octets (1 run in 97), and in the thorough tier one
+    // credential of 17000 messages
+    let giant_message = cx.run_index % 97 == 13;
+    if giant_message { cx.count("probe.message_of_16_MiB"); }
+    if cx.thorough && cx.run_index == 7 { k = 17000; cx.count("probe.credential_of_17000_messages"); }
     cx.step(node, "sweep-sign", StepOpts::default(), move || {
         let (sk, pk) = api::keygen(suite, &bytes_for(seed, b"sw-ikm", 0, 32), None, None)?;
-        let msgs: Vec<Bytes> = (0..k).map(|i| bytes_for(seed, b"sw-m", i as u64, 1 + i % 23)).collect();
+        let mut msgs: Vec<Bytes> = (0..k).map(|i| bytes_for(seed, b"sw-m", i as u64, 1 + i % 23)).collect();
+        if giant_message { msgs.push(vec![0x5a; (1 << 24) + 1]); }
         let (sig, ok) = api::sign_and_selfcheck(suite, &sk, &pk, &Some(b"sweep".to_vec()), &Some(msgs.clone()))?;
         if !ok { return Err("the fresh signature does not verify in memory".into()); }
         match api::verify(suite, &pk, &sig, &Some(b"sweep".to_vec()), &Some(msgs)) { api::Res::Accept => Ok(()), r => Err(format!("verify after the octet round trip: {r:?}")) }
@@ -82,14 +88,15 @@ pub fn blind(cx: &mut Cx) {
 }
 
 /// EXTREME SIZE in a child process: a credential of 2600 / 3200 messages signed, presented and
-/// verified on a thread with the default 2 MiB stack.  A failure mode of such sizes is the death
+/// verified on a thread with a 256 KiB stack.  A failure mode of such sizes is the death
 /// of the whole process (stack exhaustion aborts, it does not unwind), so the probe runs where a
 /// death is an observation instead of the end of the batch.
 pub fn bigproof_child(a: &[String]) {
     let suite = Suite::from_idx(a.first().and_then(|x| x.parse().ok()).unwrap_or(0));
     let seed: u64 = a.get(1).and_then(|x| x.parse().ok()).unwrap_or(1);
     let l: usize = a.get(2).and_then(|x| x.parse().ok()).unwrap_or(2600);
-    let h = std::thread::Builder::new().stack_size(2 << 20).spawn(move || -> Result<(), String> {
+    // (a 256 KiB stack: what a server gives its worker threads; the library needs a few KiB)
+    let h = std::thread::Builder::new().stack_size(256 << 10).spawn(move || -> Result<(), String> {
         let (sk, pk) = api::keygen(suite, &bytes_for(seed, b"big-ikm", 0, 32), None, None)?;
         let msgs: Vec<Bytes> = (0..l).map(|i| bytes_for(seed, b"big-m", i as u64, 1 + i % 13)).collect();
         let hd = Some(b"big".to_vec());
@@ -120,7 +127,7 @@ pub fn bigproof(cx: &mut Cx) {
         match (code, text.as_str()) {
             (Some(0), "ok") => cx.count("verdict.MustAccept.accept"),
             (Some(0), other) => cx.violation("C03", "extreme-size/flow-failed".into(), format!("suite={} L={l}: {other}", suite.name())),
-            _ => cx.violation("C03", "extreme-size/process-died".into(), format!("suite={} L={l}: the process making the proof died ({status}); on a thread with a 2 MiB stack", suite.name())),
+            _ => cx.violation("C03", "extreme-size/process-died".into(), format!("suite={} L={l}: the process making the proof died ({status}); on a thread with a 256 KiB stack", suite.name())),
         }
     });
     cx.run();
